@@ -409,6 +409,18 @@ const SIGNIFICANT: [u64; 40] = [
 ];
 
 pub fn gen_uint(rng: &mut Rng, max: u64) -> u64 {
+    let lits = literals();
+    if !lits.numbers.is_empty() && rng.chance(1, 6) {
+        let v = *rng.pick(&lits.numbers);
+        let v = match rng.below(4) {
+            0 => v.wrapping_add(1),
+            1 => v.wrapping_sub(1),
+            _ => v,
+        };
+        if v <= max {
+            return v;
+        }
+    }
     if rng.chance(1, 5) {
         let c: Vec<u64> = SIGNIFICANT.iter().cloned().filter(|x| *x <= max).collect();
         if !c.is_empty() {
@@ -462,11 +474,60 @@ pub fn gen_len(rng: &mut Rng, min: usize, max: usize, small: bool) -> usize {
     }
 }
 
+/// Literals harvested by the driver from the source tree under test (string, byte-string and
+/// integer literals of /repo/src): a *workload dictionary* — code that special-cases a token or a
+/// number has to spell it somewhere.  The oracles never look at it.
+pub struct Literals {
+    pub texts: Vec<String>,
+    pub numbers: Vec<u64>,
+}
+
+static LITERALS: std::sync::OnceLock<Literals> = std::sync::OnceLock::new();
+
+pub fn load_literals(path: &str) {
+    let mut texts = Vec::new();
+    let mut numbers = Vec::new();
+    if let Ok(s) = std::fs::read_to_string(path) {
+        for line in s.lines() {
+            if let Some(h) = line.strip_prefix("S ") {
+                if let Ok(t) = String::from_utf8(crate::cbor::unhex(h)) {
+                    if t.len() <= 200 {
+                        texts.push(t);
+                    }
+                }
+            } else if let Some(n) = line.strip_prefix("N ") {
+                if let Ok(v) = n.trim().parse::<u64>() {
+                    numbers.push(v);
+                }
+            }
+        }
+    }
+    let _ = LITERALS.set(Literals { texts, numbers });
+}
+
+pub fn literals() -> &'static Literals {
+    LITERALS.get_or_init(|| Literals { texts: Vec::new(), numbers: Vec::new() })
+}
+
 /// Byte content of length n: mostly random, sometimes one of the special shapes that code tends to
 /// treat specially (all zero, all 0xFF, leading 0x00 / 0xFF / 0x80, ASCII of a member name,
 /// ascending bytes, the CBOR break / map bytes).
 pub fn gen_bytes_content(rng: &mut Rng, n: usize) -> Vec<u8> {
+    let lits = literals();
     let mut b = match rng.below(16) {
+        5 if !lits.texts.is_empty() => {
+            // a harvested literal as prefix, as suffix or repeated
+            let w = rng.pick(&lits.texts).as_bytes().to_vec();
+            let mut v = rng.bytes(n);
+            if !w.is_empty() && w.len() <= n {
+                match rng.below(3) {
+                    0 => v[..w.len()].copy_from_slice(&w),
+                    1 => v[n - w.len()..].copy_from_slice(&w),
+                    _ => v = w.iter().cycle().take(n).cloned().collect(),
+                }
+            }
+            v
+        }
         0 => vec![0x00; n],
         1 => vec![0xff; n],
         2 => (0..n).map(|i| i as u8).collect(),
@@ -500,6 +561,24 @@ const SPECIAL_TEXTS: [&str; 44] = [
 ];
 
 pub fn gen_text(rng: &mut Rng, n: usize) -> V {
+    let lits = literals();
+    if !lits.texts.is_empty() && rng.chance(1, 4) {
+        // a harvested literal alone (if it fits), as prefix, as suffix, or in the middle
+        let w = rng.pick(&lits.texts);
+        if w.len() <= n {
+            let fill = n - w.len();
+            let t = match rng.below(4) {
+                0 => format!("{}{}", w, rng.ascii(fill)),
+                1 => format!("{}{}", rng.ascii(fill), w),
+                2 => {
+                    let a = rng.usize(fill + 1);
+                    format!("{}{}{}", rng.ascii(a), w, rng.ascii(fill - a))
+                }
+                _ => format!("{}{}", w, rng.text_bytes(fill)),
+            };
+            return V::text(&t);
+        }
+    }
     match rng.below(12) {
         0 => {
             // a text that equals (or is built from) a member name / well-known identifier
@@ -564,6 +643,14 @@ pub fn gen(s: &S, g: &mut G) -> V {
     match s {
         S::UInt { max } => V::U(gen_uint(g.rng, *max)),
         S::Int { min, max } => {
+            let lits = literals();
+            if !lits.numbers.is_empty() && g.rng.chance(1, 6) {
+                let v = *g.rng.pick(&lits.numbers) as i128;
+                let v = if g.rng.bool() { -v } else { v } + (g.rng.below(3) as i128 - 1);
+                if v >= *min && v <= *max {
+                    return V::int(v);
+                }
+            }
             if g.rng.bool() {
                 V::int(*g.rng.pick(&[*min, *max, 0, -1, -7, -8, 23, 24, -24, -25, 255, 256, -256, -257]))
             } else {
@@ -577,6 +664,13 @@ pub fn gen(s: &S, g: &mut G) -> V {
             V::B(gen_bytes_content(g.rng, n))
         }
         S::Text { max } => {
+            let lits = literals();
+            if !lits.texts.is_empty() && g.rng.chance(1, 16) {
+                let w = g.rng.pick(&lits.texts);
+                if w.len() <= *max {
+                    return V::text(w);
+                }
+            }
             let n = gen_len(g.rng, 0, *max, g.small);
             gen_text(g.rng, n)
         }
